@@ -91,17 +91,16 @@ def parse_m(out):
 
 
 def model_correspondence(ck, d, tbh, progs):
-    """the same planted power-on state (all four registers, memory fill) through hextb.cpp's own run() (several Verilator
-    seeds: the four hidden trigger bits cannot be planted) and through the extracted model (all hidden-bit combinations):
-    every real outcome must be a model outcome; on a tree for which C13 holds both are a single outcome"""
+    """the same planted power-on state -- all four registers, memory fill AND the four hidden trigger copies (previous clock /
+    previous reset of the processor and of the memory block) -- through hextb.cpp's own run() in the harness and through the
+    extracted TbModel.run: outcome (how it ended, exit code, console output, input consumed) and the state after the reset
+    window must be equal, hidden-bit value by hidden-bit value"""
     hv, log = vlib.ocaml_build()
     if hv is None:
         ck.broken.append('extraction/OCaml build failed: ' + log[-300:])
         return {}
     rng = ck.rng
-    hs = list(range(16))          # all combinations: a real outcome must be reproduced by SOME hidden-bit value
-    seeds = [1, 2, 3, 4] if not ck.thorough() else list(range(1, 9))
-    stats = {'states': 0, 'real_runs': 0, 'model_runs': 0, 'real_not_in_model': 0, 'probe_mismatch': 0, 'model_ub_skipped': 0, 'outcomes_seen': 0}
+    stats = {'programs': len(progs), 'states': 0, 'real_runs': 0, 'model_runs': 0, 'outcome_mismatch': 0, 'probe_mismatch': 0, 'model_ub_skipped': 0, 'outcomes_seen': 0}
     seen = set()
     for name, b, inp in progs:
         ip = os.path.join(d, 'cin')
@@ -113,54 +112,72 @@ def model_correspondence(ck, d, tbh, progs):
         stores = [i for i, x in enumerate(image) if (x >> 4) in (2, 8)]
         plants = []
         for a in svc[:3]:
-            for pc in (a, a - 1):
+            for pc in (a, max(a - 1, 0)):
                 for areg in (0, 1, 2, 3):
                     plants.append('pc=%d areg=%d breg=%d oreg=0 fill=0x%02x' % (pc, areg, rng.choice([0, 5, 199990]), rng.choice([0xD3, 0x00, 0x80])))
         for a in stores[:3]:
-            for pc in (a, a - 1):
+            for pc in (a, max(a - 1, 0)):
                 plants.append('pc=%d areg=305419896 breg=%d oreg=0 fill=0x%02x' % (pc, rng.choice([0, 3, 7]), rng.choice([0x20, 0x82, 0x00])))
         plants.append('pc=0 areg=0 breg=0 oreg=0 fill=0x00')
         plants.append('pc=2097151 areg=4294967295 breg=4294967295 oreg=4294967280 fill=0xff')
         rng.shuffle(plants)
-        for desc in plants[:(8 if not ck.thorough() else 200)]:
+        for desc in plants[:(4 if not ck.thorough() else 60)]:
             stats['states'] += 1
-            real, realp = set(), set()
-            for seed in seeds:
-                rc, o, e = run3([tbh, b, str(seed), '20000'] + desc.split(), cwd=d, stdin=open(ip, 'rb'), timeout=120)
-                r = parse_h(o)
-                real.add(model_outcome(r))
-                rc, o, e = run3([tbh, b, str(seed), '0', 'probe=1'] + desc.split(), cwd=d, stdin=open(ip, 'rb'), timeout=120)
-                p = parse_h(o).get('probe') or {}
-                realp.add((p.get('pc'), p.get('areg'), p.get('breg'), p.get('oreg'), p.get('image_intact')))
-                stats['real_runs'] += 2
-            model, modelp, ub = set(), set(), False
+            hs = list(range(16)) if ck.thorough() else sorted(set([0, 15] + rng.sample(range(16), 4)))
             for h in hs:
+                hid = 'pclk=%d prst=%d mclk=%d mrst=%d' % (h & 1, (h >> 1) & 1, (h >> 2) & 1, (h >> 3) & 1)
+                rc, o, e = run3([tbh, b, '1', '20000'] + desc.split() + hid.split(), cwd=d, stdin=open(ip, 'rb'), timeout=120)
+                real = model_outcome(parse_h(o))
+                rc, o, e = run3([tbh, b, '1', '0', 'probe=1'] + desc.split() + hid.split(), cwd=d, stdin=open(ip, 'rb'), timeout=120)
+                p = parse_h(o).get('probe') or {}
+                realp = (p.get('pc'), p.get('areg'), p.get('breg'), p.get('oreg'), p.get('image_intact'))
+                stats['real_runs'] += 2
                 rc, o, e = run3([hv, 'tbrun', b, 'current', '9000', '0'] + desc.split() + ['h=%d' % h], cwd=d, stdin=open(ip, 'rb'), timeout=300)
                 r = parse_m(o)
-                if r.get('end') in ('ub', 'nofuel'):
-                    ub = True
-                model.add(model_outcome(r))
+                model = model_outcome(r)
                 rc, o, e = run3([hv, 'tbrun', b, 'current', '9000', '4'] + desc.split() + ['h=%d' % h], cwd=d, stdin=open(ip, 'rb'), timeout=300)
                 st = parse_m(o).get('state') or {}
-                modelp.add((st.get('pc'), st.get('areg'), st.get('breg'), st.get('oreg'), st.get('image_intact')))
+                modelp = (st.get('pc'), st.get('areg'), st.get('breg'), st.get('oreg'), st.get('image_intact'))
                 stats['model_runs'] += 2
-            seen |= real
-            if ub:
-                stats['model_ub_skipped'] += 1          # C++ undefined behaviour / out of fuel in the model: nothing to compare
-                continue
-            if not real <= model:
-                stats['real_not_in_model'] += 1
-                if stats['real_not_in_model'] <= 3:
-                    ck.broken.append('model correspondence: hextb.cpp run() on %s from [%s] gives %s, TbModel.run gives %s over the hidden bits'
-                                     % (name, desc, sorted(real, key=str), sorted(model, key=str)))
-            if not realp <= modelp:
-                stats['probe_mismatch'] += 1
-                if stats['probe_mismatch'] <= 3:
-                    ck.broken.append('model correspondence: state at the first post-reset fetch on %s from [%s]: harness %s, model %s'
-                                     % (name, desc, sorted(realp, key=str), sorted(modelp, key=str)))
+                seen.add(real)
+                if r.get('end') in ('ub', 'nofuel'):
+                    stats['model_ub_skipped'] += 1          # C++ undefined behaviour / out of fuel in the model: nothing to compare
+                    continue
+                if real != model:
+                    stats['outcome_mismatch'] += 1
+                    if stats['outcome_mismatch'] <= 3:
+                        ck.broken.append('model correspondence: hextb.cpp run() on %s from [%s %s] gives %s, TbModel.run gives %s' % (name, desc, hid, real, model))
+                if realp != modelp:
+                    stats['probe_mismatch'] += 1
+                    if stats['probe_mismatch'] <= 3:
+                        ck.broken.append('model correspondence: state after the reset window on %s from [%s %s]: harness %s, model %s' % (name, desc, hid, realp, modelp))
     stats['outcomes_seen'] = len(seen)
     ck.log('model correspondence: %s' % stats)
     return stats
+
+
+def extra_programs(ck, d):
+    """hand-written shapes xcmp never emits: consecutive system calls (through the real hexasm) and images whose first
+    instruction is a system call"""
+    out = []
+    hexasm, _ = vlib.repo_tool('hexasm')
+    for aname, asrc, ainps in tbcommon.asm_programs():
+        if not aname.startswith('svc-'):
+            continue
+        sd = os.path.join(d, 'a_' + aname)
+        os.makedirs(sd, exist_ok=True)
+        open(os.path.join(sd, 'p.S'), 'w').write(asrc)
+        rc, o, e = run3([hexasm, 'p.S', '-o', 'p.bin'], cwd=sd, timeout=60) if hexasm else (1, b'', b'no hexasm')
+        if rc == 0 and os.path.exists(os.path.join(sd, 'p.bin')):
+            out.append((aname, os.path.join(sd, 'p.bin'), ainps[0]))
+        else:
+            ck.broken.append('hexasm rejects the hand-written program %s: %s' % (aname, (o + e)[-200:]))
+    for sname, (simg, sinp, kind, _, _) in sorted(tbcommon.known_shapes().items()):
+        if kind == 'first-instruction-svc':
+            b = os.path.join(d, 'first-%s.bin' % sname)
+            open(b, 'wb').write(simg)
+            out.append((sname, b, sinp))
+    return out
 
 
 def main():
@@ -168,7 +185,7 @@ def main():
     ck.cov['trusted_base'] = ['Coq 8.16.1 kernel + VM', 'TbModel.v hand model of hextb.cpp run()/handleSyscall()/load(), tied by this run',
                               'generated RTL semantics (tools/vl2coq.py) and the clocking/first-eval semantics of RtlSem.v', 'Verilator 5.006 (the Verilated model is the implementation under test)',
                               'harness/tb_harness.cpp (plants state through --public-flat-rw, calls hextb.cpp\'s own load/run)']
-    ck.assumptions = ['KNOWN FINDING (known_findings.json, kind first-instruction-svc): a binary whose byte 0 is OPR SVC -- hextb never samples that request (hypothesis "first instruction is not a system call" of C13_seed_independent / C13_run_is_isa); exhibited on every run by two hand-assembled binaries',
+    ck.assumptions = ['binaries whose first instruction is a system call are ordinary judged inputs since the repair of hextb.cpp (known_findings.json: fixed, kind first-instruction-svc); the READ clause of well_behaved is the known finding read-overwrites-own-svc (exhibited by ./check C03 and ./check C06)',
                       'power-on states are enumerated (seeds + planted adversarial states + fills), not proved exhaustively on the Verilated model; the theorem quantifies over all of them on the model']
     status = gen_rtl.generate_all()          # TbProofs is about the design regenerated from the working tree
     if status.get('hex'):
@@ -260,32 +277,28 @@ def main():
                     judge('fill', 'seed=%d %s' % (seed, desc), parse_h(o))
                     rc, o, e = run3([tbh, b, str(seed), '0', 'probe=1'] + desc.split(), cwd=d, stdin=open(ip, 'rb'), timeout=120)
                     judge('probe', 'seed=%d %s probe' % (seed, desc), parse_h(o), probe=True)
-    # ---- known finding inside the literal quantifier (known_findings.json, kind first-instruction-svc): the request of the
-    # instruction at byte 0 is never sampled by the testbench -- for every power-on state alike, but not what hexsim/the ISA do
-    exhibits = []
-    for sname, (simg, sinp, kind, sim_does, tb_does) in sorted(tbcommon.known_shapes().items()):
-        if kind != 'first-instruction-svc':
-            continue
-        b = os.path.join(d, 'shape-%s.bin' % sname)
-        open(b, 'wb').write(simg)
-        ip = os.path.join(d, 'shape.in')
-        open(ip, 'wb').write(sinp)
-        ref_rc, ref_out = reference(hexsim, b, sinp, d)
-        got = []
-        for s_ in (1, 2, 3, 4):
-            rc, o, e = run3([hextb, b, '--max-cycles', '2000', '+verilator+seed+%d' % s_], cwd=d, stdin=open(ip, 'rb'), timeout=120)
+    # ---- hand-written shapes (consecutive system calls; first instruction a system call -- repaired, a difference is a violation):
+    # Verilator seeds through the real executable against hexsim's result
+    extras = extra_programs(ck, d)
+    for name, b, inp in extras:
+        ip = os.path.join(d, 'xin')
+        open(ip, 'wb').write(inp)
+        ref_rc, ref_out = reference(hexsim, b, inp, d)
+        img = open(b, 'rb').read()
+        for s_ in range(1, (9 if not ck.thorough() else 200)):
+            rc, o, e = run3([hextb, b, '--max-cycles', '20000', '+verilator+seed+%d' % s_], cwd=d, stdin=open(ip, 'rb'), timeout=120)
             o = o.split(b'\n', 1)[1] if o.startswith(b'Wrote ') and b'\n' in o else o
-            got.append((rc & 0xff, o))
-        ck.cov['evaluations'] += 1
-        differs = any(g != (ref_rc & 0xff, ref_out) for g in got)
-        exhibits.append({'shape': sname, 'differs': differs, 'same_for_all_seeds': len(set(got)) == 1, 'hexsim': [ref_rc & 0xff, ref_out.decode('latin1')], 'hextb': [[g[0], g[1].decode('latin1')] for g in got]})
-        if differs:
-            ck.violation('%s: hexsim %s (exit %d, output %r); hextb for seeds 1..4 %s: %s' % (sname, sim_does, ref_rc & 0xff, ref_out, tb_does, got),
-                         {'program': 'shape/' + sname, 'binary_hex': simg.hex(), 'input': list(sinp), 'hextb': [[g[0], list(g[1])] for g in got]},
-                         tags={'kind': 'first-instruction-svc'})
-    ck.cov['known_finding_exhibits'] = exhibits
+            ck.cov['evaluations'] += 1
+            dist['seed'] += 1
+            distinct.add((name, 'seed%d' % s_))
+            if (rc & 0xff, o) != (ref_rc & 0xff, ref_out):
+                nbad += 1
+                if nbad <= 4:
+                    kind = 'first-instruction-svc' if name.startswith('first-svc') else 'power-on'
+                    ck.violation('hextb on %s with +verilator+seed+%d: exit %d output %r, hexsim: exit %d output %r' % (name, s_, rc & 0xff, o[:30], ref_rc & 0xff, ref_out[:30]),
+                                 {'program': name, 'binary_hex': img.hex(), 'input': list(inp), 'power_on': '+verilator+seed+%d' % s_}, tags={'kind': kind, 'how': 'seed'})
     # ---- tie for the model: extracted TbModel.run (hextb.cpp's loop over the generated RTL) vs hextb.cpp's own run() in the harness
-    corr = model_correspondence(ck, d, tbh, [p for p in progs if p[0] in ('exit7', 'echo', 'sum')])
+    corr = model_correspondence(ck, d, tbh, [p for p in progs if p[0] in ('exit7', 'echo', 'sum')] + extras)
     ck.cov['model_correspondence'] = corr
     ck.cov['distinct_nontrivial'] = len(distinct)
     ck.cov['rule'] = 'power-on states = Verilator seeds (real executable) + planted register states at/just before every SVC and store byte of the image + memory fills that make every non-image byte an SVC/store; x toolchain binaries; distinct by (program, state)'
